@@ -54,6 +54,15 @@ func logsPayload(n int) []byte {
 	return sig.Encode(ld)
 }
 
+func companionLogs() []byte {
+	ld := plog.NewLogs()
+	r := ld.ResourceLogs().AppendEmpty().ScopeLogs().AppendEmpty().LogRecords().AppendEmpty()
+	r.Body().SetStr("second request")
+	var next int64 = companionBase
+	pitems.TagLogs(ld, &next)
+	return sig.Encode(ld)
+}
+
 // TestWriteReplays regenerates the curated replay files
 // (VT_WRITE_REPLAYS=/verif/replays/C05 go test -run TestWriteReplays).
 func TestWriteReplays(t *testing.T) {
@@ -115,6 +124,21 @@ func TestWriteReplays(t *testing.T) {
 	write("10-split-exhausted-then-parked.json", "shutdown-persist-split", SScript{Signal: sig.Logs, Payload: logsPayload(6), MaxSize: 2,
 		Backoff: Backoff{Enabled: true, InitialUS: 2000, MultX100: 200, RandX100: 0, MaxIntUS: 16000, MaxElapsedMS: 60000},
 		Fates:   []Fate{{Kind: "ok"}, {Kind: "exhaust"}, {Kind: "park", ThrottleUS: 10_000_000}, {Kind: "ok"}, {Kind: "flaky", K: 1}, {Kind: "ok"}}, LingerUS: 500})
+	// 11/12. near request deadline behind a wait_for_result queue / the legacy batcher: the deadline must still reach the retry sender
+	for name, q := range map[string]string{"11-near-deadline-wait-for-result-queue.json": "wfr", "12-near-deadline-legacy-batcher.json": "batcher"} {
+		write(name, "retry-policy", Script{Signal: sig.Logs, Payload: full, DeadlineMS: 25, Queue: q, TimeoutMS: 40,
+			Backoff:  Backoff{Enabled: true, InitialUS: 4000, MultX100: 200, RandX100: 0, MaxIntUS: 16000},
+			Outcomes: []Outcome{{}, {}, {}, {}, {}, {}}})
+	}
+	// 13. plain async queue: the producer's 5ms deadline does not apply, the retries go on until the backend recovers
+	write("13-async-queue-detached-deadline.json", "retry-policy", Script{Signal: sig.Logs, Payload: full, DeadlineMS: 5, Queue: "async",
+		Backoff:  Backoff{Enabled: true, InitialUS: 4000, MultX100: 200, RandX100: 0, MaxIntUS: 16000},
+		Outcomes: []Outcome{{}, {Partial: true, Remaining: rem2}, {}, {OK: true}}})
+	// 14. two consumers: one request parked in its back-off, a second one inside an attempt that succeeds 5ms after Shutdown was called
+	write("14-persist-second-request-in-attempt.json", "shutdown-persist", PScript{Script: Script{Signal: sig.Logs, Payload: full, Backoff: bo,
+		Outcomes: []Outcome{{}, {Throttle: true, ThrottleUS: 10_000_000}},
+		Stop:     &Stop{Kind: "shutdown", Mode: "wait", At: 1, DelayUS: 300}},
+		Companion: &Companion{Payload: companionLogs(), Outcome: "ok", ReleaseUS: 5000}})
 	// 6. persistent queue control: permanent error, clean shutdown, nothing may come back
 	write("06-persist-permanent-control.json", "shutdown-persist", PScript{Script: Script{Signal: sig.Logs, Payload: full, Backoff: bo,
 		Outcomes: []Outcome{{}, {Perm: true, Wrap: 1}}}})
